@@ -106,7 +106,7 @@ func runSkipRows(prop string) func(p *Prog, r *Report) {
 					if rw.emits == "" {
 						emitsHere, emittedBefore = true, false
 					}
-					if rw.brk {
+					if _, isBranch := br.(*ast.BranchStmt); rw.brk && isBranch {
 						// a break inside a switch / select leaves that statement, not the loop
 						for q := p.Parent(br); q != nil && q != loop; q = p.Parent(q) {
 							switch q.(type) {
